@@ -5,6 +5,7 @@ PROPERTY THEOREMS ONLY (helper lemmas live in Hts.Lemmas.*).  Every statement qu
 -/
 import Hts.Lemmas.Itf8
 import Hts.Lemmas.Itf8Spec
+import Hts.Lemmas.Itf8Value
 import Hts.Lemmas.CramStream
 namespace Hts.Props.C20
 open Hts.Model
@@ -84,6 +85,75 @@ theorem ltf8_decode_reads_announced (b0 : BitVec 8) (t : List (BitVec 8))
     Ltf8.decode ((b0 :: t).take (Ltf8.width b0).toNat) = Ltf8.decode (b0 :: t) :=
   Ltf8.decode_take b0 t h
 
+/-! ### decode against the specification, for EVERY input (canonical or overlong) -/
+
+/-- the width the decoder derives from a first byte is the specification's -/
+theorem itf8_width_is_spec (b0 : BitVec 8) : Itf8.width b0 = (Hts.Spec.Itf8.width b0.toNat : Nat) :=
+  Itf8.width_is_spec b0
+
+theorem ltf8_width_is_spec (b0 : BitVec 8) : Ltf8.width b0 = (Hts.Spec.Ltf8.width b0.toNat : Nat) :=
+  Ltf8.width_is_spec b0
+
+/-- whenever the announced bytes are present, the value Decode returns is the value the specification
+assigns to exactly those bytes — also for encodings `Encode` never produces (overlong forms such as
+`80 05`; a 5-byte ITF-8 whose last byte has a non-zero high nibble: the specification ignores it) -/
+theorem itf8_decode_is_spec (b0 : BitVec 8) (t : List (BitVec 8))
+    (h : Itf8.width b0 ≤ ((t.length + 1 : Nat) : Int)) :
+    Hts.Spec.Itf8.value (((b0 :: t).take (Itf8.width b0).toNat).map BitVec.toNat)
+      = some (Itf8.decode (b0 :: t)).1.toNat :=
+  Itf8.decode_is_spec b0 t h
+
+theorem ltf8_decode_is_spec (b0 : BitVec 8) (t : List (BitVec 8))
+    (h : Ltf8.width b0 ≤ ((t.length + 1 : Nat) : Int)) :
+    Hts.Spec.Ltf8.value (((b0 :: t).take (Ltf8.width b0).toNat).map BitVec.toNat)
+      = some (Ltf8.decode (b0 :: t)).1.toNat :=
+  Ltf8.decode_is_spec b0 t h
+
+/-- the specification is coherent with itself: its value function inverts its encoder on every 32-bit
+(64-bit) value.  (A corollary of the three facts about the code: encode = spec, decode = spec value,
+decode ∘ encode = id; it says the two halves of the hand-written specification agree.) -/
+theorem itf8_spec_value_encode (u : Nat) (hu : u < 2 ^ 32) :
+    Hts.Spec.Itf8.value (Hts.Spec.Itf8.encode u) = some u := by
+  have hs := itf8_encode_is_spec (BitVec.ofNat 32 u)
+  have hd := itf8_decode_encode (BitVec.ofNat 32 u)
+  have hl := itf8_encode_length (BitVec.ofNat 32 u)
+  rw [BitVec.toNat_ofNat, Nat.mod_eq_of_lt hu] at hs
+  cases he : Itf8.encode (BitVec.ofNat 32 u) with
+  | nil => rw [he] at hd; simp [Itf8.decode_nil] at hd
+  | cons b0 t =>
+    rw [he] at hs hd hl
+    have hw := (itf8_decode_fails_iff_short b0 t).1
+    rw [hd] at hw
+    simp only at hw
+    have h : Itf8.width b0 ≤ ((t.length + 1 : Nat) : Int) := by
+      simp only [List.length_cons] at hl; omega
+    have hv := itf8_decode_is_spec b0 t h
+    have htake : (b0 :: t).take (Itf8.width b0).toNat = b0 :: t := by
+      apply List.take_of_length_le; simp only [List.length_cons] at hl ⊢; omega
+    rw [htake, hs, hd] at hv
+    simpa [Nat.mod_eq_of_lt hu] using hv
+
+theorem ltf8_spec_value_encode (u : Nat) (hu : u < 2 ^ 64) :
+    Hts.Spec.Ltf8.value (Hts.Spec.Ltf8.encode u) = some u := by
+  have hs := ltf8_encode_is_spec (BitVec.ofNat 64 u)
+  have hd := ltf8_decode_encode (BitVec.ofNat 64 u)
+  have hl := ltf8_encode_length (BitVec.ofNat 64 u)
+  rw [BitVec.toNat_ofNat, Nat.mod_eq_of_lt hu] at hs
+  cases he : Ltf8.encode (BitVec.ofNat 64 u) with
+  | nil => rw [he] at hd; simp [Ltf8.decode_nil] at hd
+  | cons b0 t =>
+    rw [he] at hs hd hl
+    have hw := (ltf8_decode_fails_iff_short b0 t).1
+    rw [hd] at hw
+    simp only at hw
+    have h : Ltf8.width b0 ≤ ((t.length + 1 : Nat) : Int) := by
+      simp only [List.length_cons] at hl; omega
+    have hv := ltf8_decode_is_spec b0 t h
+    have htake : (b0 :: t).take (Ltf8.width b0).toNat = b0 :: t := by
+      apply List.take_of_length_le; simp only [List.length_cons] at hl ⊢; omega
+    rw [htake, hs, hd] at hv
+    simpa [Nat.mod_eq_of_lt hu] using hv
+
 /-! ### the stream readers of cram/cram.go (errorReader.itf8 / ltf8) -/
 
 /-- an encoded number followed by anything reads back as that number, leaving exactly the rest -/
@@ -125,5 +195,9 @@ example : Itf8.width 0xf1#8 ≤ ((4 + 1 : Nat) : Int) := by decide
 example : (Ltf8.encode 0xffffffffffffffff#64).length = 9 := by decide
 example : CramStream.itf8 [0xf1#8, 0x23#8, 0x45#8, 0x67#8, 0x78#8, 0xaa#8] = .ok (0x12345678#32, [0xaa#8]) := by rfl
 example : CramStream.ltf8 [0xff#8, 1#8, 2#8] = .error .unexpectedEOF := by rfl
+-- overlong (non-canonical) input: accepted, with the specification's value; Encode never produces it
+example : Itf8.decode [0x80#8, 0x05#8] = (5#32, 2, true) ∧ Itf8.encode 5#32 = [0x05#8] := by decide
+example : Hts.Spec.Itf8.value [0x80, 0x05] = some 5 := by decide
+example : Hts.Spec.Ltf8.value [0xfe, 1, 2, 3, 4, 5, 6, 7] = some 0x01020304050607 := by decide
 
 end Hts.Props.C20
